@@ -349,6 +349,12 @@ Proof.
   split; reflexivity.
 Qed.
 
+Lemma step_ok : forall a sp t d tm i w l inf,
+  step (mkSt a sp t d tm (S i) w l inf) AttemptOk =
+  if a then (mkSt true sp t d tm i (S w) l IConnected, [OWatch; OCallback])
+  else (mkSt false sp t d tm i w l inf, []).
+Proof. intros. destruct a; reflexivity. Qed.
+
 Theorem backoff_restarts : forall evs z,
   permitted init_state (evs ++ [AttemptOk]) ->
   let s := fst (run init_state (evs ++ [AttemptOk])) in
@@ -359,23 +365,23 @@ Theorem backoff_restarts : forall evs z,
   snd r = [OSetTimer initialDelay; OGetRef; OSetTimer (jittered z (Qmin (initialDelay * factor) maxDelay))] /\
   timer (fst r) = Some (jittered z (Qmin (initialDelay * factor) maxDelay)).
 Proof.
-  intros evs z HP s Ha.
-  pose proof (inv_run _ init_state inv_init HP) as HI. fold s in HI.
+  intros evs z HP s.
   destruct (permitted_app _ _ _ HP) as [HP1 HP2]. cbn [permitted] in HP2. destruct HP2 as [He _].
-  assert (Hw : watching s = 1%nat /\ inflight s = 0%nat /\ timer s = None).
-  { pose proof (inv_run _ init_state inv_init HP1) as HI0.
-    unfold s in *. rewrite run_app in *. destruct (run init_state evs) as [s0 o0]. cbn [run fst] in *.
-    destruct s0 as [a sp t d tm i w l inf]. cbn [enabled inflight] in He. apply Nat.ltb_lt in He.
-    destruct HI0 as (_ & A & NA & _). cbn [active stopped tub timer inflight watching timer_count] in A, NA.
-    revert Ha HI. exec. destruct a; exec; intros Ha HI; [|discriminate].
-    destruct (A eq_refl) as (_ & _ & Hc & _). destruct tm; cbn in Hc; [lia|].
-    destruct i; [lia|]. cbn. repeat split; lia. }
-  destruct Hw as (W1 & W2 & W3).
-  split; [cbn [enabled]; rewrite W1; reflexivity|].
-  destruct (first_failure_after_loss s z Ha W1 W2 W3) as [F1 F2].
-  cbn zeta. split; [|split; assumption].
-  destruct s as [a sp t d tm i w l inf]. cbn in Ha, W1, W2, W3. subst.
-  cbn [permitted]. exec. repeat split; reflexivity.
+  pose proof (inv_run _ init_state inv_init HP1) as HI0.
+  assert (Es : s = fst (step (fst (run init_state evs)) AttemptOk)).
+  { unfold s. rewrite run_app. destruct (run init_state evs) as [s0 o0]. cbn [run fst].
+    destruct (step s0 AttemptOk) as [s1 o1]. reflexivity. }
+  clearbody s. subst s.
+  destruct (fst (run init_state evs)) as [a sp t d tm i w l inf].
+  cbn [enabled inflight] in He. apply Nat.ltb_lt in He. destruct i as [|i]; [lia|].
+  rewrite step_ok. destruct a; cbn [fst active]; [|discriminate]. intros _.
+  destruct HI0 as (HL & A & _). cbn [active stopped tub timer inflight watching leaked timer_count] in A, HL.
+  destruct (A eq_refl) as (_ & _ & Hc & _). destruct tm; cbn in Hc; [lia|].
+  assert (i = 0%nat) by lia. assert (w = 0%nat) by lia. subst.
+  split; [reflexivity|]. cbv zeta.
+  split; [|apply and_comm; apply first_failure_after_loss; reflexivity].
+  cbn [permitted]. rewrite step_lost_active. cbn [fst pred]. rewrite step_timer_expired. cbn [fst].
+  repeat split; reflexivity.
 Qed.
 
 (* ------------------------------------------------------------------ 5. keeps retrying while active *)
@@ -406,3 +412,39 @@ Proof.
   - intros He. cbn [enabled] in He. unfold timer_truthy in He. cbn [timer] in He.
     destruct tm; [|discriminate]. cbn in Hc. exec. repeat split. lia.
 Qed.
+
+(* ------------------------------------------------------------------ non-vacuity of the hypotheses *)
+
+Example ex_permitted :
+  permitted init_state [Start; AttemptFail (1 # 2); TimerExpired; AttemptFail (-(8)); Elapse; Reset; TimerExpired;
+                        AttemptOk; Lost; TimerExpired; Stop; AttemptOk; Reset].
+Proof. apply permittedb_ok. vm_compute. reflexivity. Qed.
+
+Example ex_active :
+  active (fst (run init_state [Start; AttemptFail (1 # 2); TimerExpired; AttemptFail (-(8)); Elapse])) = true
+  /\ timer_count (fst (run init_state [Start; AttemptFail (1 # 2); TimerExpired; AttemptFail (-(8)); Elapse])) = 1%nat.
+Proof. vm_compute. split; reflexivity. Qed.
+
+Example ex_zmax : 0 <= 8 /\ 8 * jitter <= 1 /\ z_bounded 8 (AttemptFail (-(8))) /\ ~ (9 * jitter <= 1).
+Proof.
+  split; [apply Qle_bool_imp_le; vm_compute; reflexivity|].
+  split; [apply Qle_bool_imp_le; vm_compute; reflexivity|].
+  split; [split; apply Qle_bool_imp_le; vm_compute; reflexivity|].
+  intros H. apply Qle_bool_iff in H. vm_compute in H. discriminate.
+Qed.
+
+Example ex_backoff_premise :
+  permitted init_state ([Start; AttemptFail 2; TimerExpired; AttemptFail 2; TimerExpired] ++ [AttemptOk]) /\
+  active (fst (run init_state ([Start; AttemptFail 2; TimerExpired; AttemptFail 2; TimerExpired] ++ [AttemptOk]))) = true.
+Proof. split; [apply permittedb_ok; vm_compute; reflexivity | vm_compute; reflexivity]. Qed.
+
+(* regression witness of the repaired defect (commit 6967c1e): stopConnecting while queued, then the Tub starts *)
+Example ex_stop_before_start :
+  permitted init_state [Stop; Start; Reset; Stop] /\
+  snd (run init_state [Stop; Start; Reset; Stop]) = [ORemove; ORemove] /\
+  active (fst (run init_state [Stop; Start])) = false /\ inflight (fst (run init_state [Stop; Start])) = 0%nat.
+Proof. split; [apply permittedb_ok; vm_compute; reflexivity | vm_compute; repeat split; reflexivity]. Qed.
+
+(* pb.py calls startConnecting from exactly two places (connectTo on a running Tub, startService for queued ones) *)
+Example ex_start_sites : tub_start_sites = 2%nat.
+Proof. reflexivity. Qed.
